@@ -3,6 +3,7 @@
 mod ergx;
 mod gen;
 mod progrun;
+mod projgen;
 mod props;
 
 use vkit::engine::{drive_main, parse_args};
